@@ -9,6 +9,7 @@ import (
 	"encoding/json"
 	"fmt"
 	"net/netip"
+	"strings"
 	"testing"
 	"time"
 
@@ -30,7 +31,7 @@ func rt(s string) system.Route { return system.Route{Prefix: netip.MustParsePref
 
 var c15Pool = []system.Route{
 	rt("2001:db8::/48"),
-	rt("2001:db8::/64"), // nested, same base address
+	rt("2001:db8::/64"),     // nested, same base address
 	rt("2001:db8:0:1::/64"), // nested, other base address
 	rt("2001:db8::/128"),    // host route at the base of both
 	rt("2001:db8:0:1::1/128"),
@@ -242,14 +243,66 @@ func c15Seqs(maxLen int) func(yield func(c15Case) bool) {
 	}
 }
 
+// c15OverlapProp: see vkOverlapped.
+func c15OverlapProp(k *verifkit.Kit) func(c c15Case) error {
+	return func(c c15Case) error {
+		if c.SrcErr || len(c.Routes) == 0 {
+			k.Record(c, false, "overlap:nothing-to-list")
+			return nil
+		}
+		k.Record(c, true, "overlap")
+		render := func(g []ndp.Option, err error) (string, error) {
+			var gp []netip.Prefix
+			for _, o := range g {
+				if ri, ok := o.(*ndp.RouteInformation); ok {
+					gp = append(gp, netip.PrefixFrom(ri.Prefix, int(ri.PrefixLength)))
+				}
+			}
+			return fmt.Sprint(gp), err
+		}
+		ref := func(list []system.Route) string { return fmt.Sprint(verifref.ExpandRoutes(list)) }
+		cur := c.Routes
+		pl := c15Plugin(c, &cur)
+		otherList := vkPermute(c.Routes, c.Perm)
+		if len(otherList) > 1 {
+			otherList = otherList[1:]
+		}
+		cur2 := otherList
+		other := c15Plugin(c, &cur2)
+		if len(c.Routes)%2 == 0 {
+			other, otherList = pl, c.Routes
+		}
+		orig := pl.Routes
+		return vkOverlapped("C15",
+			func(gate func()) (string, error) {
+				gp := *pl
+				gp.Routes = func() ([]system.Route, error) { gate(); return orig() }
+				if other == pl {
+					pl.Routes = gp.Routes
+					return render(c15ApplyOn(pl))
+				}
+				return render(c15ApplyOn(&gp))
+			},
+			func() (string, error) { return render(c15ApplyOn(other)) },
+			ref(c.Routes), ref(otherList),
+			func() (string, error) { return render(c15ApplyOn(pl)) })
+	}
+}
+
 func TestVerif_C15(t *testing.T) {
 	k := verifkit.Start(t, "C15")
 	prop := c15Prop(k)
-	k.Regress(t, func(sub string, raw json.RawMessage) error { return verifkit.Decode(raw, prop) })
+	k.Regress(t, func(sub string, raw json.RawMessage) error {
+		if strings.HasPrefix(sub, "overlapping") {
+			return verifkit.Decode(raw, c15OverlapProp(k))
+		}
+		return verifkit.Decode(raw, prop)
+	})
 	maxLen := 3
 	if k.Thorough() {
 		maxLen = 4
 	}
 	verifkit.Enumerate(k, t, fmt.Sprintf("pool-sequences<=%d", maxLen), true, c15Seqs(maxLen), prop)
 	verifkit.Rapid(k, t, "random-dumps", k.N(4000, 1000000), c15Gen, prop)
+	verifkit.Rapid(k, t, "overlapping-applications", k.N(400, 40000), c15Gen, c15OverlapProp(k))
 }
